@@ -59,16 +59,17 @@ var (
 )
 
 type run struct {
-	w      *tr.W
-	b      behaviour
-	c      *chain
-	e      *env
-	n      *node
-	cfg    nodeCfg
-	drifts int
-	stuck  string
-	loop   bool // the chain has stopped and the node is rewound again and again: it will never be at rest
-	fatal  string
+	abandoned bool // the node could not be joined after it was recorded as stuck: the behaviour ends there
+	w         *tr.W
+	b         behaviour
+	c         *chain
+	e         *env
+	n         *node
+	cfg       nodeCfg
+	drifts    int
+	stuck     string
+	loop      bool // the chain has stopped and the node is rewound again and again: it will never be at rest
+	fatal     string
 	// the detector stamps a detected reorg with the wall-clock second (primary key of reorg_event together with
 	// subscriber and range): a second detection of the same range within the same second fails and is retried on the
 	// next tick. The replay keeps two detections of one behaviour in different seconds.
@@ -191,6 +192,9 @@ func (r *run) play(id int, dir string, seed uint64) error {
 		b.Steps = nil
 	}
 	for i, s := range b.Steps {
+		if r.abandoned {
+			break
+		}
 		if r.drifts > 0 {
 			// diverged: only the chain keeps moving as scripted; the node is run to rest afterwards
 			if err := r.envStep(s, false); err != nil {
@@ -207,7 +211,10 @@ func (r *run) play(id int, dir string, seed uint64) error {
 			r.c.Emit(tr.M{"ev": "drift", "step": i, "want": s.A, "at": s.At, "got": got})
 		}
 	}
-	quiet := r.quiesce()
+	quiet := false
+	if !r.abandoned {
+		quiet = r.quiesce()
+	}
 	select {
 	case r.fatal = <-fatalCh:
 	default:
@@ -225,7 +232,15 @@ func (r *run) play(id int, dir string, seed uint64) error {
 		content = append(content, tr.M{"n": x.N, "v": r.c.name(x.N, x.Hash), "evs": x.Evs})
 	}
 	r.c.Emit(tr.M{"ev": "end", "quiet": quiet, "stuck": r.stuck, "loop": r.loop, "fatal": r.fatal, "drift": r.drifts, "last": last, "store": content})
+	if r.abandoned {
+		return nil
+	}
 	if err := r.n.stop(stuckWait); err != nil {
+		if r.stuck != "" {
+			// the behaviour is already recorded as stuck (a goroutine of the node neither parked nor finished): its goroutines are
+			// left behind with their own files, the run goes on with the next behaviour
+			return nil
+		}
 		return err
 	}
 	return st.close()
@@ -306,6 +321,10 @@ func (r *run) envStep(s step, strict bool) error {
 
 func (r *run) restart() error {
 	if err := r.n.stop(stuckWait); err != nil {
+		if r.stuck != "" {
+			r.abandoned = true // recorded as stuck; nothing more can be asked of this node
+			return nil
+		}
 		return err
 	}
 	if err := r.cfg.st.close(); err != nil {
